@@ -1,1 +1,446 @@
-use jjconf::util::Opts; #[allow(dead_code)] pub fn run(_o: &Opts) -> Result<(), String> { Err("todo".into()) }
+//! S->I replayer for spec/Repo.tla: executes TLC-generated behaviours of
+//! MC_Repo (one JSON object per line: {"model":"Repo","steps":[{a, args, post}]})
+//! through the real MutableRepo / Transaction / RepoLoader and compares the
+//! projected real state with the model's `post` after EVERY action.  Model
+//! commit ids are bound to real commits as they are created (never by hash):
+//! commits the replayer creates itself directly, commits created inside
+//! rebase_descendants through the progress callback, commits created by a
+//! reconciliation through the operation's predecessor records, fresh
+//! working-copy commits through the workspace pointer.
+use std::collections::BTreeSet;
+use std::collections::HashMap;
+use std::sync::Arc;
+
+use jj_lib::backend::ChangeId;
+use jj_lib::backend::CommitId;
+use jj_lib::commit::Commit;
+use jj_lib::ref_name::RefName;
+use jj_lib::ref_name::WorkspaceName;
+use jj_lib::ref_name::WorkspaceNameBuf;
+use jj_lib::repo::ReadonlyRepo;
+use jj_lib::repo::Repo;
+use jj_lib::revset::RevsetExpression;
+use jj_lib::rewrite::EmptyBehavior;
+use jj_lib::rewrite::RebaseOptions;
+use jj_lib::rewrite::RebasedCommit;
+use jj_lib::rewrite::RewriteRefsOptions;
+use jj_lib::transaction::Transaction;
+use pollster::FutureExt as _;
+use serde_json::Value;
+use serde_json::json;
+
+use jjconf::util::Opts;
+use jjconf::util::Out;
+use jjconf::util::catch;
+use jjconf::util::read_ndjson;
+
+use crate::world::BOOKMARKS;
+use crate::world::WORKSPACES;
+use crate::world::World;
+
+struct Rp {
+    w: World,
+    /// model commit id -> real commit
+    bind: HashMap<usize, Commit>,
+    rev: HashMap<CommitId, usize>,
+    chg: HashMap<i64, ChangeId>,
+    /// model op id -> real repo at that operation
+    ops: Vec<Arc<ReadonlyRepo>>,
+    tx: Option<Transaction>,
+}
+
+type Fail = Value;
+
+fn us(v: &Value) -> usize {
+    v.as_u64().unwrap() as usize
+}
+fn ids(v: &Value) -> Vec<usize> {
+    v.as_array().unwrap().iter().map(us).collect()
+}
+
+impl Rp {
+    fn new() -> Self {
+        let w = World::new();
+        let root = w.commit(1).clone();
+        let mut s = Self { w, bind: HashMap::new(), rev: HashMap::new(), chg: HashMap::new(), ops: vec![], tx: None };
+        s.chg.insert(0, root.change_id().clone());
+        s.do_bind(1, root);
+        let r0 = s.w.repo0();
+        s.ops.push(r0);
+        s
+    }
+
+    fn do_bind(&mut self, m: usize, c: Commit) {
+        self.rev.insert(c.id().clone(), m);
+        self.bind.insert(m, c);
+    }
+
+    fn real(&self, m: usize) -> Result<&Commit, Fail> {
+        self.bind.get(&m).ok_or_else(|| json!({"why": "model commit was never created by the implementation", "commit": m}))
+    }
+
+    fn cids(&self, ms: &[usize]) -> Result<Vec<CommitId>, Fail> {
+        ms.iter().map(|&m| self.real(m).map(|c| c.id().clone())).collect()
+    }
+
+    /// SeededInit of MC_Repo: 1 <- 2 <- 3 <- 4 (empty, undescribed, w1), b1 at 3
+    fn seed(&mut self) {
+        let repo0 = self.ops[0].clone();
+        let mut tx = repo0.start_transaction();
+        let mut prev = self.w.cid(1);
+        for (m, desc, empty) in [(2usize, "d1", false), (3, "d2", false), (4, "", true)] {
+            let tree = self.w.tree_on(tx.repo(), std::slice::from_ref(&prev), empty);
+            let c = tx.repo_mut().new_commit(vec![prev.clone()], tree).set_description(desc).write().block_on().unwrap();
+            prev = c.id().clone();
+            self.chg.insert(m as i64 - 1, c.change_id().clone());
+            self.do_bind(m, c);
+        }
+        let t = jj_lib::op_store::RefTarget::normal(self.bind[&3].id().clone());
+        tx.repo_mut().set_local_bookmark_target(RefName::new(BOOKMARKS[0]), t);
+        let c4 = self.bind[&4].clone();
+        tx.repo_mut().edit(WorkspaceNameBuf::from(WORKSPACES[0]), &c4).block_on().unwrap();
+        let repo = tx.write("seed").block_on().unwrap().leave_unpublished();
+        self.ops.push(repo);
+    }
+
+    fn cur_repo(&self) -> &dyn Repo {
+        match &self.tx {
+            Some(tx) => tx.repo(),
+            None => self.ops.last().unwrap().as_ref(),
+        }
+    }
+
+    /// compare the real state with the model's post-state
+    fn compare(&mut self, step: &Value, committed: Option<&Arc<ReadonlyRepo>>) -> Result<(), Fail> {
+        let post = &step["post"];
+        // 1. every commit the model created is bound and has the model's shape
+        for nc in post["new"].as_array().unwrap() {
+            let m = us(&nc[0]);
+            let c = self.real(m)?.clone();
+            let parents: Vec<i64> = c.parent_ids().iter().map(|p| self.rev.get(p).map_or(-1, |&x| x as i64)).collect();
+            let want: Vec<i64> = nc[1].as_array().unwrap().iter().map(|x| x.as_i64().unwrap()).collect();
+            if parents != want {
+                return Err(json!({"why": "parents of a new commit differ", "commit": m, "expected": want, "observed": parents}));
+            }
+            let mchg = nc[2].as_i64().unwrap();
+            match self.chg.get(&mchg) {
+                Some(real) if real != c.change_id() => {
+                    return Err(json!({"why": "change id of a new commit differs from the commits the model gives the same change", "commit": m}));
+                }
+                Some(_) => {}
+                None => {
+                    if self.chg.values().any(|x| x == c.change_id()) {
+                        return Err(json!({"why": "new commit reuses a change id where the model has a fresh one", "commit": m}));
+                    }
+                    self.chg.insert(mchg, c.change_id().clone());
+                }
+            }
+            let d = nc[3].as_i64().unwrap();
+            let want_desc = if d == 0 { String::new() } else { format!("d{d}") };
+            if c.description() != want_desc {
+                return Err(json!({"why": "description of a new commit differs", "commit": m, "expected": want_desc, "observed": c.description()}));
+            }
+            let emp = c.is_empty(self.cur_repo()).block_on().unwrap();
+            if emp != nc[4].as_bool().unwrap() {
+                return Err(json!({"why": "emptiness of a new commit differs", "commit": m, "expected": nc[4], "observed": emp}));
+            }
+        }
+        // 2. projected view: visible set, bookmarks, working copies (heads when committed)
+        let repo = self.cur_repo();
+        let view = repo.view();
+        let mut vis: BTreeSet<i64> = BTreeSet::new();
+        let mut stack: Vec<CommitId> = view.heads().iter().cloned().collect();
+        let mut seen: BTreeSet<CommitId> = BTreeSet::new();
+        while let Some(c) = stack.pop() {
+            if seen.insert(c.clone()) {
+                let commit = repo.store().get_commit(&c).unwrap();
+                match self.rev.get(&c) {
+                    Some(&m) => {
+                        vis.insert(m as i64);
+                    }
+                    None => {
+                        return Err(json!({"why": "the implementation has a visible commit the model did not create",
+                                          "description": commit.description(),
+                                          "parents": commit.parent_ids().iter().map(|p| self.rev.get(p).map_or(-1, |&x| x as i64)).collect::<Vec<_>>()}));
+                    }
+                }
+                stack.extend(commit.parent_ids().iter().cloned());
+            }
+        }
+        let vis: Vec<i64> = vis.into_iter().collect();
+        let want_vis: Vec<i64> = post["vis"].as_array().unwrap().iter().map(|x| x.as_i64().unwrap()).collect();
+        if vis != want_vis {
+            return Err(json!({"why": "visible commits differ", "expected": want_vis, "observed": vis}));
+        }
+        let bm: Vec<Vec<i64>> = BOOKMARKS
+            .iter()
+            .map(|n| {
+                view.get_local_bookmark(RefName::new(n))
+                    .as_merge()
+                    .iter()
+                    .map(|t| match t {
+                        None => 0,
+                        Some(id) => self.rev.get(id).map_or(-1, |&x| x as i64),
+                    })
+                    .collect()
+            })
+            .collect();
+        if json!(bm) != post["view"]["bm"] {
+            return Err(json!({"why": "bookmarks differ", "expected": post["view"]["bm"], "observed": bm}));
+        }
+        let wc: Vec<i64> = WORKSPACES
+            .iter()
+            .map(|n| view.get_wc_commit_id(WorkspaceName::new(n)).map_or(0, |id| self.rev.get(id).map_or(-1, |&x| x as i64)))
+            .collect();
+        if json!(wc) != post["view"]["wc"] {
+            return Err(json!({"why": "working-copy commits differ", "expected": post["view"]["wc"], "observed": wc}));
+        }
+        if let Some(repo) = committed {
+            let mut heads: Vec<i64> = view.heads().iter().map(|h| self.rev[h] as i64).collect();
+            heads.sort();
+            if json!(heads) != post["view"]["heads"] {
+                return Err(json!({"why": "committed heads differ", "expected": post["view"]["heads"], "observed": heads}));
+            }
+            // predecessor records of the operation
+            let mut preds: Vec<(i64, Vec<i64>)> = vec![];
+            if let Some(map) = &repo.operation().store_operation().commit_predecessors {
+                for (k, vs) in map {
+                    preds.push((
+                        self.rev.get(k).map_or(-1, |&x| x as i64),
+                        vs.iter().map(|v| self.rev.get(v).map_or(-1, |&x| x as i64)).collect(),
+                    ));
+                }
+            }
+            preds.sort();
+            let got = json!(preds.iter().map(|(k, v)| json!([k, v])).collect::<Vec<_>>());
+            if got != post["preds"] {
+                return Err(json!({"why": "predecessor records of the operation differ", "expected": post["preds"], "observed": got}));
+            }
+        }
+        Ok(())
+    }
+
+    /// bind fresh working-copy commits (created inside rebase/merge) through the workspace pointers
+    fn bind_fresh_wc(&mut self, post: &Value) {
+        let repo_view_wc: Vec<Option<CommitId>> = WORKSPACES
+            .iter()
+            .map(|n| self.cur_repo().view().get_wc_commit_id(WorkspaceName::new(n)).cloned())
+            .collect();
+        for (i, real) in repo_view_wc.into_iter().enumerate() {
+            let m = us(&post["view"]["wc"][i]);
+            if let Some(rid) = real {
+                if m != 0 && !self.bind.contains_key(&m) && !self.rev.contains_key(&rid) {
+                    let c = self.cur_repo().store().get_commit(&rid).unwrap();
+                    self.do_bind(m, c);
+                }
+            }
+        }
+    }
+
+    fn desc_of(nc: &Value) -> String {
+        let d = nc[3].as_i64().unwrap();
+        if d == 0 { String::new() } else { format!("d{d}") }
+    }
+
+    fn step(&mut self, step: &Value) -> Result<(), Fail> {
+        let a = step["a"].as_str().unwrap();
+        let post = &step["post"];
+        let new = post["new"].as_array().unwrap().clone();
+        let mut committed: Option<Arc<ReadonlyRepo>> = None;
+        match a {
+            "StartTx" => {
+                self.tx = Some(self.ops[us(&step["o"]) - 1].start_transaction());
+            }
+            "Restore" => {
+                let v = self.ops[us(&step["o"]) - 1].view().store_view().clone();
+                self.tx.as_mut().unwrap().repo_mut().set_view(v);
+            }
+            "NewCommit" => {
+                let ps = self.cids(&ids(&step["ps"]))?;
+                let e = step["e"].as_bool().unwrap();
+                let tx = self.tx.as_mut().unwrap();
+                let tree = self.w.tree_on(tx.repo(), &ps, e);
+                let c = tx.repo_mut().new_commit(ps, tree).set_description(Self::desc_of(&new[0])).write().block_on()
+                    .map_err(|e| json!({"why": "new_commit failed", "error": e.to_string()}))?;
+                self.do_bind(us(&new[0][0]), c);
+            }
+            "RewriteCommit" => {
+                let x = self.real(us(&step["x"]))?.clone();
+                let np = self.cids(&ids(&step["np"]))?;
+                let tx = self.tx.as_mut().unwrap();
+                let c = if np.as_slice() == x.parent_ids() {
+                    // describe-like rewrite
+                    tx.repo_mut().rewrite_commit(&x).set_description(Self::desc_of(&new[0])).write().block_on()
+                } else {
+                    // rebase -r like rewrite: the commit's own changes move onto the new parents
+                    match jj_lib::rewrite::CommitRewriter::new(tx.repo_mut(), x.clone(), np).rebase().block_on() {
+                        Ok(b) => b.set_description(Self::desc_of(&new[0])).write().block_on(),
+                        Err(e) => Err(e),
+                    }
+                }
+                .map_err(|e| json!({"why": "rewrite_commit failed", "error": e.to_string()}))?;
+                self.do_bind(us(&new[0][0]), c);
+            }
+            "Abandon" => {
+                let x = self.real(us(&step["x"]))?.clone();
+                self.tx.as_mut().unwrap().repo_mut().record_abandoned_commit(&x);
+            }
+            "Divergent" => {
+                let x = self.real(us(&step["x"]))?.clone();
+                let mut made = vec![];
+                for nc in new.iter().take(2) {
+                    let tx = self.tx.as_mut().unwrap();
+                    let c = tx.repo_mut().rewrite_commit(&x).set_description(Self::desc_of(nc)).write().block_on()
+                        .map_err(|e| json!({"why": "rewrite_commit failed", "error": e.to_string()}))?;
+                    made.push(c.id().clone());
+                    self.do_bind(us(&nc[0]), c);
+                }
+                self.tx.as_mut().unwrap().repo_mut().set_divergent_rewrite(x.id().clone(), made);
+            }
+            "SetBookmark" => {
+                let t: Vec<usize> = ids(&step["t"]);
+                let target = jj_lib::op_store::RefTarget::from_merge(jj_lib::merge::Merge::from_vec(
+                    t.iter().map(|&m| if m == 0 { Ok(None) } else { self.real(m).map(|c| Some(c.id().clone())) })
+                        .collect::<Result<Vec<_>, Fail>>()?,
+                ));
+                let name = BOOKMARKS[us(&step["i"]) - 1];
+                self.tx.as_mut().unwrap().repo_mut().set_local_bookmark_target(RefName::new(name), target);
+            }
+            "Edit" => {
+                let c = self.real(us(&step["c"]))?.clone();
+                let ws = WORKSPACES[us(&step["w"]) - 1];
+                self.tx.as_mut().unwrap().repo_mut().edit(WorkspaceNameBuf::from(ws), &c).block_on()
+                    .map_err(|e| json!({"why": "edit failed", "error": e.to_string()}))?;
+            }
+            "CheckOut" => {
+                let c = self.real(us(&step["c"]))?.clone();
+                let ws = WORKSPACES[us(&step["w"]) - 1];
+                let n = self.tx.as_mut().unwrap().repo_mut().check_out(WorkspaceNameBuf::from(ws), &c).block_on()
+                    .map_err(|e| json!({"why": "check_out failed", "error": e.to_string()}))?;
+                self.do_bind(us(&new[0][0]), n);
+            }
+            "RemoveWorkspace" => {
+                let ws = WORKSPACES[us(&step["w"]) - 1];
+                self.tx.as_mut().unwrap().repo_mut().remove_workspace(WorkspaceName::new(ws)).block_on()
+                    .map_err(|e| json!({"why": "remove_workspace failed", "error": e.to_string()}))?;
+            }
+            "RebaseDescendants" => {
+                let options = RebaseOptions {
+                    empty: if step["empty"] == "all" { EmptyBehavior::AbandonAllEmpty } else { EmptyBehavior::Keep },
+                    rewrite_refs: RewriteRefsOptions { delete_abandoned_bookmarks: step["del"].as_bool().unwrap() },
+                    simplify_ancestor_merge: false,
+                };
+                let mut rebased: Vec<(CommitId, RebasedCommit)> = vec![];
+                self.tx.as_mut().unwrap().repo_mut()
+                    .rebase_descendants_with_options(&RevsetExpression::none(), &options, |old, new| {
+                        rebased.push((old.id().clone(), new));
+                    })
+                    .block_on()
+                    .map_err(|e| json!({"why": "rebase_descendants failed", "error": e.to_string()}))?;
+                // what the model says was rebased: [[old, kind, [n]]]
+                let mut want: HashMap<usize, (String, usize)> = HashMap::new();
+                for e in step["rb"].as_array().unwrap() {
+                    want.insert(us(&e[0]), (e[1].as_str().unwrap().to_string(), us(&e[2][0])));
+                }
+                let mut got_keys = BTreeSet::new();
+                for (old, newc) in rebased {
+                    let o = *self.rev.get(&old).ok_or_else(|| json!({"why": "rebased an unknown commit"}))?;
+                    got_keys.insert(o);
+                    match (want.get(&o), newc) {
+                        (Some((k, n)), RebasedCommit::Rewritten(c)) if k == "rw" => {
+                            let n = *n;
+                            self.do_bind(n, c);
+                        }
+                        (Some((k, p)), RebasedCommit::Abandoned { parent_id }) if k == "ab" => {
+                            if self.rev.get(&parent_id) != Some(p) {
+                                return Err(json!({"why": "commit dropped as empty onto another parent than in the model", "commit": o}));
+                            }
+                        }
+                        (w, got) => {
+                            return Err(json!({"why": "rebase outcome of a descendant differs", "commit": o,
+                                              "expected": format!("{w:?}"), "observed": format!("{got:?}").chars().take(60).collect::<String>()}));
+                        }
+                    }
+                }
+                let want_keys: BTreeSet<usize> = want.keys().copied().collect();
+                if got_keys != want_keys {
+                    return Err(json!({"why": "set of rebased descendants differs", "expected": want_keys, "observed": got_keys}));
+                }
+                self.bind_fresh_wc(post);
+            }
+            "Commit" => {
+                let tx = self.tx.take().unwrap();
+                let repo = tx.write("tx").block_on().map_err(|e| json!({"why": "commit failed", "error": e.to_string()}))?.leave_unpublished();
+                self.ops.push(repo.clone());
+                committed = Some(repo);
+            }
+            "MergeHeads" => {
+                let (x, y) = (us(&step["x"]), us(&step["y"]));
+                let loader = self.ops[0].loader().clone();
+                let opsv = vec![self.ops[x - 1].operation().clone(), self.ops[y - 1].operation().clone()];
+                let (repo, _) = loader.merge_operations(opsv, None, Some("reconcile"), []).block_on()
+                    .map_err(|e| json!({"why": "merge_operations failed", "error": e.to_string()}))?;
+                self.ops.push(repo.clone());
+                // bind the commits the reconciliation created through its predecessor records
+                let mut model_by_pred: HashMap<usize, usize> = HashMap::new();
+                for e in post["preds"].as_array().unwrap() {
+                    if let Some(p) = e[1].as_array().unwrap().first() {
+                        model_by_pred.insert(us(p), us(&e[0]));
+                    }
+                }
+                if let Some(map) = &repo.operation().store_operation().commit_predecessors {
+                    for (k, vs) in map {
+                        if let Some(p) = vs.first().and_then(|p| self.rev.get(p)) {
+                            if let Some(&m) = model_by_pred.get(p) {
+                                if !self.bind.contains_key(&m) {
+                                    let c = repo.store().get_commit(k).unwrap();
+                                    self.do_bind(m, c);
+                                }
+                            }
+                        }
+                    }
+                }
+                self.bind_fresh_wc(post);
+                committed = Some(repo);
+            }
+            other => return Err(json!({"why": "unknown action", "a": other})),
+        }
+        self.compare(step, committed.as_ref())
+    }
+}
+
+fn replay_one(beh: &Value) -> (usize, Option<Value>) {
+    let steps = beh["steps"].as_array().unwrap();
+    let mut rp = Rp::new();
+    rp.seed();
+    for (i, st) in steps.iter().enumerate() {
+        let r = catch(std::panic::AssertUnwindSafe(|| rp.step(st)));
+        match r {
+            Ok(Ok(())) => {}
+            Ok(Err(mut f)) => {
+                f["at"] = json!(i + 1);
+                f["action"] = st["a"].clone();
+                return (i, Some(f));
+            }
+            Err(msg) => {
+                return (i, Some(json!({"why": "panic", "msg": msg, "at": i + 1, "action": st["a"]})));
+            }
+        }
+    }
+    (steps.len(), None)
+}
+
+pub fn run(opts: &Opts) -> Result<(), String> {
+    jjconf::util::quiet_panics();
+    let behs = read_ndjson(&opts.str("behaviours", "behaviours.ndjson"))?;
+    let mut out = Out::create(&opts.str("out", "replayed.ndjson"))?;
+    for (k, b) in behs.iter().enumerate() {
+        let (n, fail) = replay_one(b);
+        match fail {
+            None => out.emit(&json!({"op":"replayed","idx":k,"ok":true,"steps":n})),
+            Some(f) => out.emit(&json!({"op":"replayed","idx":k,"ok":false,"steps":n,"fail":f})),
+        }
+    }
+    out.finish();
+    Ok(())
+}
